@@ -200,6 +200,34 @@ def check(pid, cfg, args):
     if ax_smoke_bad:
         errors.append('axioms are inconsistent (smoke obligation proved false)')
 
+    # ------------------------------------------------------------ C accelerator: ownership / call-out obligations (cfront)
+    cfuncs = []
+    if cfg.get('cfunctions') and not args.no_prove:
+        from zivc import cfront, solve, symex
+        import z3
+        res = cfront.verify_functions(cfg['cfunctions'], returns=cfg.get('creturns'))
+        for name in cfg['cfunctions']:
+            status, obls, npaths, fdecl = res[name]
+            cfuncs.append({'function': name, 'file': 'src/zope/interface/' + cfront.CFILE, 'language': 'c',
+                           'status': status, 'paths': npaths, 'obligations': len(obls),
+                           'lines': [fdecl['range']['begin'].get('line', fdecl['loc'].get('line')) if fdecl else None,
+                                     fdecl['range']['end'].get('line') if fdecl else None] if fdecl else None})
+            if status != 'ok':
+                undecided.append('%s (C): %s' % (name, status))
+                continue
+            seen = {}
+            for kind, ok, detail, trace in obls:
+                n = seen.get(kind, 0)
+                seen[kind] = n + 1
+                r = solve.Result('%s::%s#%d' % (name, kind, n))
+                # the formula handed to the back end is ground: the abstract execution already fixed the path
+                goal = z3.BoolVal(bool(ok))
+                r.z3 = 'unsat' if ok else 'sat'
+                r.via = 'cfront-pathwise'
+                r.model = None if ok else detail
+                o = symex.Obligation('%s:%s' % (kind, detail[:160]), [], goal, 'c-' + kind, None, trace[-6:])
+                labelled.append(('c:%s::%s#%d' % (name, kind, n), o, r, 'c:' + name))
+
     n_obl = len(labelled)
     n_dis = sum(1 for _, _, r, _ in labelled if r.discharged)
     solver_time = sum(r.time for _, _, r, _ in labelled)
@@ -214,6 +242,13 @@ def check(pid, cfg, args):
     if not args.no_prove and cfg.get('contracts') and n_obl == 0 and not undecided:
         errors.append('zero obligations generated')
 
+    n_obl = len(labelled)
+    n_dis = sum(1 for _, _, r, _ in labelled if r.discharged)
+    failed = [(lbl, o, r) for lbl, o, r, _ in labelled if not r.discharged]
+    by_backend = {}
+    for _, _, r, _ in labelled:
+        if r.discharged:
+            by_backend[r.backend] = by_backend.get(r.backend, 0) + 1
     # known-finding obligations
     known_obl = []
     new_failed = []
@@ -267,6 +302,20 @@ def check(pid, cfg, args):
                         known_wit.append((v, k))
                     else:
                         witnesses.append(v)
+        if cfg.get('differential'):
+            tr = {d['mode']: d.get('traces') for d in fals if d.get('traces')}
+            if 'c' in tr and 'py' in tr:
+                for prog in sorted(tr['c']):
+                    a, b = tr['c'][prog], tr['py'].get(prog, [])
+                    diffs = [(x, y) for x, y in zip(a, b) if x != y]
+                    if len(a) != len(b):
+                        diffs.append((['length', str(len(a))], ['length', str(len(b))]))
+                    for x, y in diffs[:3]:
+                        witnesses.append({'sig': 'differs:%s:%s' % (prog, x[0]), 'mode': 'c', 'known': None,
+                                          'what': 'program %s, step %s: with the C accelerator %s, in PURE_PYTHON mode %s' % (prog, x[0], x[1][:200], y[1][:200]),
+                                          'script': 'from falsify.%s import replay\nreplay(%r)\n' % (cfg['falsifier'], prog)})
+            elif not errors:
+                errors.append('differential check needs the traces of both implementations')
     finally:
         if ctree:
             shutil.rmtree(ctree, ignore_errors=True)
@@ -333,7 +382,7 @@ def check(pid, cfg, args):
                 for lbl, o, r, _ in labelled}}, f, indent=1, sort_keys=True)
 
     # ------------------------------------------------------------ evidence
-    funcs = []
+    funcs = list(cfuncs)
     for rep in reports:
         if rep.fsrc is not None:
             funcs.append({'function': rep.proc.key, 'file': 'src/zope/interface/' + rep.fsrc.relpath,
@@ -357,6 +406,7 @@ def check(pid, cfg, args):
         'trusted_base': STANDING + assumption_scan(regs),
         'obligations_by_backend': by_backend, 'solver_time_s': round(solver_time, 2),
         'functions_under_contract': funcs,
+        'c_obligation_kinds': 'U use-after-callout, L reference balance, N NULL, B stale bound, St stale store (zivc/cfront.py)' if cfuncs else '',
         'lemmas': [{'lemma': lbl, 'status': 'proved (%s)' % r.backend if r.discharged else 'open'}
                    for lbl, o, r, key in labelled if key == 'lemma'],
         'failed_obligations': [lbl for lbl, _, _ in failed],
